@@ -1148,11 +1148,27 @@ let run_memlower (x : sexp) : string =
            "instrs=" ^ ml_show (MemLower.lower_ref b rs) ^ "\tpinned=" ^ ml_show (MemLower.lower_ref_pinned b rs))
   | _ -> failwith "memlower"
 
+(* ==== C18 OutPath: where the IR of a module is written ========================================= *)
+let op_path (s : string) : OutPath.path =
+  let abs = String.length s > 0 && s.[0] = '/' in
+  let cs = List.filter (fun c -> c <> "") (String.split_on_char '/' s) in
+  { OutPath.absolute = abs; OutPath.comps = List.map (fun c -> List.init (String.length c) (fun i -> n_of_int (Char.code c.[i]))) cs }
+let op_show (p : OutPath.path) : string =
+  (if p.OutPath.absolute then "/" else "") ^
+  String.concat "/" (List.map (fun c -> String.concat "" (List.map (fun ch -> String.make 1 (Char.chr (int_of_n ch))) c)) p.OutPath.comps)
+let run_llpath (x : sexp) : string =
+  match x with
+  | L [A d; A m] ->
+      let (d, m) = (op_path d, op_path m) in
+      "path=" ^ op_show (OutPath.ll_path d m) ^ " pn=" ^ (if OutPath.is_pn_module m then "true" else "false")
+  | _ -> failwith "llpath"
+
 let dispatch (stream : string) (x : sexp) : string =
   match stream with
   | "labels" -> run_labels x
   | "lintwalk" -> run_lintwalk x
   | "escape" -> run_escape x
+  | "llpath" -> run_llpath x
   | "memlower" -> run_memlower x
   | "vars" -> run_vars x
   | "exec" -> run_exec 20000 x
